@@ -61,6 +61,9 @@ def extra(sub, root):
     names = declared_names(sub)
     fresh = st.one_of(
         st.sampled_from(["x", "_", "$schema", "newField", "Kind", "ID", "__proto__", "experimentalFoo", " ", "naïve", "0"]),
+        # names that mean something to Python code handling the object as keyword arguments or attributes
+        st.sampled_from(["self", "cls", "args", "kwargs", "__class__", "__dict__", "__init__", "__slots__", "__attrs_attrs__", "converter", "object_",
+                         "type", "value_", "from_", "class", "None", "lambda", "def"]),
         st.sampled_from(near_names(sub)),
         st.text(alphabet="abcdefghijklmnopqrstuvwxyzIDKR_", min_size=0, max_size=3),
         st.text(min_size=1, max_size=8),
